@@ -20,6 +20,8 @@ static ev_src_t *g_src; static evt_priv_t *g_evt;
 #include "recv.contracts.h"
 #elif defined(V_CTXAPI_UNIT)
 #include "ctxapi.contracts.h"
+#elif defined(V_LOOPSTART_UNIT) || defined(V_LOOPSTOP_UNIT) || defined(V_TICK_UNIT)
+#include "loop.contracts.h"
 #else
 #include "ctx.contracts.h"
 #endif
@@ -29,7 +31,7 @@ V_DEFINE_INPUTS(H_INPUTS)
 
 #include "vbuild.h"
 
-#if !defined(V_RECV_UNIT) && !defined(V_CTXAPI_UNIT)
+#if !defined(V_RECV_UNIT) && !defined(V_CTXAPI_UNIT) && !defined(V_LOOPSTART_UNIT) && !defined(V_LOOPSTOP_UNIT) && !defined(V_TICK_UNIT)
 void h_push_evt(void) {
     build();
     g_evt = malloc(sizeof *g_evt); __CPROVER_assume(g_evt != NULL);
@@ -90,4 +92,24 @@ void h_ctx_deregister(void) { build_api();
 void h_ctx_register(void) { build_api(); static const char nm[2] = "c", empty[1] = "";
     int r = m_ctx_register(vin_name_kind == 0 ? NULL : vin_name_kind == 1 ? empty : nm, (m_ctx_flags)vin_cflags, NULL);
     V_COVER("reg-eexist", r == -EEXIST); V_COVER("reg-new", vin_tls_kind == 0 && vin_name_kind == 2); V_COVER("reg-badname", r == -EINVAL); V_CANARY(); }
+#endif
+
+#if defined(V_LOOPSTART_UNIT) || defined(V_LOOPSTOP_UNIT) || defined(V_TICK_UNIT)
+static void build_loop(void) {
+    build();
+    V_ASSUME(vin_pw_errno <= 0 && vin_pw_errno > -200 && vin_nfds >= 0);
+    g_pollinit_ret = vin_pw_errno; g_modules->len = (size_t)vin_nfds; g_ctx->tick.src = vin_has_src ? malloc(sizeof(ev_src_t)) : NULL;
+    g_ctx->quit_code = (uint8_t)vin_up_kind; g_ctx->thpool = NULL;
+}
+#endif
+#ifdef V_LOOPSTART_UNIT
+void h_loop_start(void) { build_loop(); g_ctx->state = M_CTX_IDLE; int r = loop_start(g_ctx, 64);
+    V_COVER("loopstart-ok", r == 0); V_COVER("loopstart-poll-fails", r != 0); V_COVER("loopstart-with-tick", r == 0 && vin_has_src); V_CANARY(); }
+#endif
+#ifdef V_LOOPSTOP_UNIT
+void h_loop_stop(void) { build_loop(); g_ctx->state = M_CTX_LOOPING; uint8_t r = loop_stop(g_ctx);
+    V_COVER("loopstop-code", r == 42); V_COVER("loopstop-autorelease", g.ctxdereg_calls == 1); V_COVER("loopstop-persistent-kept", (vin_cflags & M_CTX_PERSIST) && vin_nfds == 0); V_CANARY(); }
+#endif
+#ifdef V_TICK_UNIT
+void h_process_tick(void) { build_loop(); static ev_src_t ts; ev_src_t *r = process_tick(&ts, g_ctx, 0, NULL); (void)r; V_COVER("tick", g.sys_tick == 1); V_CANARY(); }
 #endif
